@@ -58,9 +58,11 @@ impl<'a> Colr<'a> {
             _ => return Ok(None),
         };
         let offset_data = list.offset_data();
-        // Use the address of the paint as an identifier for the recursion
-        // blacklist.
-        let id = record.paint_offset().to_u32() as usize + offset_data.as_ref().as_ptr() as usize;
+        // Use the position of the paint relative to the start of the COLR
+        // table as an identifier for the recursion blacklist. This is unique
+        // per paint and does not depend on where the font data sits in memory.
+        let id =
+            record.paint_offset().to_u32() as usize + self.offset_from_table_start(offset_data);
         Ok(Some((record.paint(offset_data)?, id)))
     }
 
@@ -76,10 +78,19 @@ impl<'a> Colr<'a> {
             .ok_or(ReadError::OutOfBounds)?
             .get();
         let offset_data = list.offset_data();
-        // Use the address of the paint as an identifier for the recursion
-        // blacklist.
-        let id = offset.to_u32() as usize + offset_data.as_ref().as_ptr() as usize;
+        // Use the position of the paint relative to the start of the COLR
+        // table as an identifier for the recursion blacklist. This is unique
+        // per paint and does not depend on where the font data sits in memory.
+        let id = offset.to_u32() as usize + self.offset_from_table_start(offset_data);
         Ok((offset.resolve(offset_data)?, id))
+    }
+
+    /// Returns the distance in bytes from the start of the COLR table to the
+    /// start of `data`, which must be a subslice of this table's data.
+    fn offset_from_table_start(&self, data: FontData<'a>) -> usize {
+        let table_start = self.offset_data().as_ref().as_ptr() as usize;
+        let data_start = data.as_ref().as_ptr() as usize;
+        data_start.wrapping_sub(table_start)
     }
 
     /// Returns the COLRv1 clip box for the given glyph identifier.
